@@ -6,7 +6,7 @@ import (
 	"fmt"
 	"io"
 	"net/http"
-	url2 "net/url"
+	"strings"
 
 	"github.com/yandex/pandora/components/providers/http/util"
 	"github.com/yandex/pandora/lib/netutil"
@@ -25,9 +25,22 @@ func (a *Ammo) BuildRequest() (*http.Request, error) {
 	if a.body != nil {
 		buff = bytes.NewReader(a.body)
 	}
-	req, err := http.NewRequest(a.method, a.url, buff)
+	// A request URI that begins with "//" is a path with an empty first segment (origin-form), as a server and
+	// the raw ammo format read it - not a network-path reference naming a host, as url.Parse (NewRequest) reads it.
+	target := a.url
+	originForm := strings.HasPrefix(a.url, "//")
+	if originForm {
+		target = "/"
+	}
+	req, err := http.NewRequest(a.method, target, buff)
 	if err != nil {
 		return nil, fmt.Errorf("cant create request: %w", err)
+	}
+	if originForm {
+		req.URL, err = util.ParseURI(a.url)
+		if err != nil {
+			return nil, fmt.Errorf("cant create request: %w", err)
+		}
 	}
 	util.EnrichRequestWithHeaders(req, a.header)
 	return req, nil
@@ -41,7 +54,7 @@ func (a *Ammo) Setup(method string, url string, body []byte, header http.Header,
 	if ok := netutil.ValidHTTPMethod(method); !ok {
 		return errors.New("invalid HTTP method " + method)
 	}
-	if _, err := url2.Parse(url); err != nil {
+	if _, err := util.ParseURI(url); err != nil {
 		return fmt.Errorf("invalid URL %s; err %w ", url, err)
 	}
 
